@@ -35,7 +35,9 @@ RULE = (
     "against an independent strict chunked parser. B: WSGIRequestHandler over socket.socketpair(): methods x "
     "request targets x header sets x (no body | Content-Length | every chunking) x application read schedules; "
     "responses: status x Content-Length given/absent x body item lists <=3 over {b'', b'a', b'bc'} x write() "
-    "callable x HEAD/GET x HTTP/1.0|1.1. non-trivial = distinct raw input with >=2 chunks, a truncation or a "
+    "callable x HEAD/GET x HTTP/1.0|1.1, plus 5 spellings of the Content-Length header name and 4 unusual "
+    "application header sets (mixed-case duplicates, Date/Server/Connection set by the application, look-alike "
+    "names) x item lists <=2. non-trivial = distinct raw input with >=2 chunks, a truncation or a "
     "malformation (A); distinct request/response with a body or a non-default head (B)."
 )
 ASSUMPTIONS = [
@@ -653,12 +655,25 @@ def dechunk_strict(b: bytes):
         pos += n + 2
 
 
+CL_SPELLINGS = ["Content-Length", "content-length", "CONTENT-LENGTH", "Content-length", "cOnTeNt-LeNgTh"]
+# application header sets in unusual spellings: mixed-case duplicates, and names the server also emits itself
+EXTRA_HEADER_SETS = [
+    (),
+    (("X-Probe", "a"), ("x-probe", "b"), ("X-PROBE", "c")),
+    (("date", "Thu, 01 Jan 1970 00:00:00 GMT"), ("SERVER", "app-server")),
+    (("connection", "close"), ("CONTENT-TYPE", "text/x-second")),
+    (("content-LENGTH-x", "7"), ("X-Content-Length", "9"), ("transfer-encoding-x", "chunked")),
+]
+SERVER_ADDED = {"server", "date", "connection", "transfer-encoding"}
+
+
 def run_response(status, with_cl, items, use_write, method, protocol, extra_headers=()):
+    """with_cl: False | True | the spelling of the Content-Length header name the application uses."""
     body = b"".join(items)
     app_headers = [("X-App", "v1"), ("Content-Type", "text/x-test")]
-    app_headers += list(extra_headers)
+    app_headers += [tuple(h) for h in extra_headers]
     if with_cl:
-        app_headers.append(("Content-Length", str(len(body))))
+        app_headers.append(("Content-Length" if with_cl is True else with_cl, str(len(body))))
 
     def app(environ, start_response):
         w = start_response(status, list(app_headers))
@@ -689,13 +704,23 @@ def run_response(status, with_cl, items, use_write, method, protocol, extra_head
             idx += 1
     if idx != len(app_headers):
         v.append(("application-headers-not-delivered", f"sent {app_headers!r}, client saw {hdrs!r}"))
-    names = [k.lower() for k, _v in hdrs]
-    for k, _v in app_headers:
-        if names.count(k.lower()) != 1:
-            v.append(("application-header-duplicated", k))
+    # nothing but the application's headers and the server's own (Server, Date, Connection, Transfer-Encoding)
+    import collections as _c
+    sent_n = _c.Counter(k.lower() for k, _v in app_headers)
+    seen_n = _c.Counter(k.lower() for k, _v in hdrs)
+    for name, cnt in seen_n.items():
+        if name in SERVER_ADDED:
+            if cnt > sent_n.get(name, 0) + 1:
+                v.append(("server-header-emitted-twice", name))
+        elif cnt != sent_n.get(name, 0):
+            v.append(("application-header-duplicated-or-invented", f"{name} x{cnt}, application sent x{sent_n.get(name, 0)}"))
+    for h in set(app_headers):
+        if hdrs.count(h) != app_headers.count(h):
+            v.append(("application-header-spelling-or-count-changed", f"{h!r}: sent x{app_headers.count(h)}, seen x{hdrs.count(h)}"))
     te = [val for k, val in hdrs if k.lower() == "transfer-encoding"]
     code_i = int(want_code)
-    want_chunked = (not with_cl and protocol == "HTTP/1.1" and method != "HEAD"
+    has_cl = any(k.lower() == "content-length" for k, _v in app_headers)
+    want_chunked = (not has_cl and protocol == "HTTP/1.1" and method != "HEAD"
                     and not (100 <= code_i < 200) and code_i not in (204, 304))
     if want_chunked:
         if te != ["chunked"]:
@@ -899,22 +924,40 @@ def run_unit(unit, R, tier):
                                                      "reads": list(reads), "sig": sig, "text": text})
     elif kind == "B-resp":
         _k, status, proto, method, maxitems = unit
+
+        def one(with_cl, items, use_write, extra):
+            R.ev()
+            R.count("executions")
+            R.count("responses")
+            if items:
+                R.nontrivial(("resp", status, proto, method, with_cl, items, use_write, extra))
+            v, chunked = run_response(status, with_cl, items, use_write, method, proto, EXTRA_HEADER_SETS[extra])
+            R.use("B-resp:chunked" if chunked else "B-resp:plain")
+            if with_cl not in (False, True, "Content-Length"):
+                R.use("B-resp:cl-spelling")
+            if extra:
+                R.use("B-resp:extra-headers")
+            R.outcome(("Bresp", chunked, tuple(s for s, _t in v)))
+            for sig, text in v:
+                R.violation("B:response:" + sig, {"kind": "B-resp", "status": status, "with_cl": with_cl,
+                                                  "items": list(items), "use_write": use_write, "extra": extra,
+                                                  "method": method, "protocol": proto, "sig": sig,
+                                                  "text": text})
+
+        # full item product with / without the canonical Content-Length
         for with_cl in (False, True):
             for items in gen.sequences(ITEMS, maxitems):
                 for use_write in (False, True):
-                    R.ev()
-                    R.count("executions")
-                    R.count("responses")
-                    if items:
-                        R.nontrivial(("resp", status, proto, method, with_cl, items, use_write))
-                    v, chunked = run_response(status, with_cl, items, use_write, method, proto)
-                    R.use("B-resp:chunked" if chunked else "B-resp:plain")
-                    R.outcome(("Bresp", chunked, tuple(s for s, _t in v)))
-                    for sig, text in v:
-                        R.violation("B:response:" + sig, {"kind": "B-resp", "status": status, "with_cl": with_cl,
-                                                          "items": list(items), "use_write": use_write,
-                                                          "method": method, "protocol": proto, "sig": sig,
-                                                          "text": text})
+                    one(with_cl, items, use_write, 0)
+        # every spelling of the Content-Length header name x item lists <= 2, and every unusual application
+        # header set x Content-Length absent / canonical / lower case x item lists <= 2
+        for items in gen.sequences(ITEMS, 2):
+            for use_write in (False, True):
+                for sp in CL_SPELLINGS[1:]:
+                    one(sp, items, use_write, 0)
+                for extra in range(1, len(EXTRA_HEADER_SETS)):
+                    for with_cl in (False, True, "content-length"):
+                        one(with_cl, items, use_write, extra)
         if status == "200 OK" and proto == "HTTP/1.1" and method == "GET":
             R.sample({"response_case": dict(status=status, items=[b"a", b"", b"bc"], protocol=proto),
                       "client_received": serve(lambda e, s: (s(status, [("X-App", "v1")]), [b"a", b"", b"bc"])[1],
@@ -928,7 +971,8 @@ def finalize(R, tier):
             "ref:complete", "ref:trunc-size-line", "ref:trunc-data", "ref:trunc-terminator", "ref:bad-size-line",
             "ref:bad-terminator", "ref:trunc-final-line-end", "ref:trunc-last-chunk-line", "ref:bad-final-line-end",
             "mal:size0", "mal:size1", "mal:last", "mal:term", "mal:size16",
-            "B-req:none", "B-req:cl", "B-req:chunked", "B-resp:chunked", "B-resp:plain"}
+            "B-req:none", "B-req:cl", "B-req:chunked", "B-resp:chunked", "B-resp:plain",
+            "B-resp:cl-spelling", "B-resp:extra-headers"}
     missing = need - R.used
     if missing:
         raise core.Broken(f"vacuity: never exercised {sorted(missing)}")
@@ -968,9 +1012,10 @@ def replay(rec):
         return any(s == rec["sig"] for s, _t in v), f"request bytes = {raw!r}\napplication reads = {rec['reads']}\nviolations = {v}"
     if k == "B-resp":
         v, chunked = run_response(rec["status"], rec["with_cl"], tuple(rec["items"]), rec["use_write"],
-                                  rec["method"], rec["protocol"])
+                                  rec["method"], rec["protocol"], EXTRA_HEADER_SETS[rec.get("extra", 0)])
         return any(s == rec["sig"] for s, _t in v), (
-            f"application: status={rec['status']!r} Content-Length given={rec['with_cl']} items={rec['items']} "
+            f"application: status={rec['status']!r} Content-Length header={rec['with_cl']!r} "
+            f"extra headers={EXTRA_HEADER_SETS[rec.get('extra', 0)]} items={rec['items']} "
             f"write()={rec['use_write']} request method={rec['method']} protocol={rec['protocol']}\n"
             f"chunked framing expected={chunked}\nviolations = {v}")
     return True, rec.get("traceback", "unit exception")
